@@ -186,6 +186,7 @@ def make_generic(scaf_name, twin=False):
             return   # siblings / re-parse are decided on the concrete alternatives (which include the characters the codecs distinguish)
         with NoTracing():
             f, m = sc.build()
+            docenv.warm(f)
             before = readings(m)
             setattr(m, name, v)
             if twin:
@@ -251,6 +252,7 @@ def make_cost(form_i, k, n_ops, twin=False):
         ops = [pick(o, 0, n_ops - 1) for o in (o0, o1, o2)[:k]]
         with NoTracing():
             f = docenv.PARSER.parse(text, M.File)
+            docenv.warm(f)
             c = get(f)
             rec = cost_record(c)
             hist = []
@@ -284,6 +286,7 @@ def make_cost(form_i, k, n_ops, twin=False):
                     raise Fail('%s: document no longer parses: %r: %r' % (what, t2, e))
                 c2 = get(f2)
                 check(c2 is not None and cost_record(c2) == rec, what, 'after re-parse', cost_record(c2) if c2 is not None else None, 'expected', rec, 'text', R(t2))
+                check(docenv.valuedump(f) == docenv.valuedump(f2), what, 'value-level readings of the document differ from those of its re-parsed text', R(t2))
 
     return 'cost_%d_o%d_f%02d%s' % (k, n_ops, form_i, '_twin' if twin else ''), cell
 
@@ -315,6 +318,7 @@ def make_payee(k, twin=False):
         with NoTracing():
             text = PRE + PAYEE_FORMS[fi] + '\n  Assets:A  1 USD\n  Assets:B' + POST
             f = docenv.PARSER.parse(text, M.File)
+            docenv.warm(f)
             t = f.raw_directives[1]
             rec = (t.payee, t.narration)
             other = {n: getattr(t, n) for n in ('date', 'flag', 'inline_comment', 'leading_comment', 'trailing_comment')}
